@@ -131,9 +131,9 @@ def run(ctx):
                     timeout=3000, note='I-layer (nondeterministic ties) |= ValidDense')
     rng = np.random.RandomState(ctx.seed + 5)
     with tmp_dir(ctx) as d:
-        recs = dense_records(ctx, d, rng, 1, 18 if ctx.quick else 120)
+        recs = dense_records(ctx, d, rng, 1, 40 if ctx.quick else 250)
         if not ctx.abort:
-            recs += sparse_records(ctx, d, rng, len(recs) + 1, 40 if ctx.quick else 300)
+            recs += sparse_records(ctx, d, rng, len(recs) + 1, 120 if ctx.quick else 800)
     if ctx.abort:
         return
     ctx.evaluations = len(recs)
